@@ -1180,6 +1180,11 @@ def directed_shapes() -> dict:
     types.append(_T(ns, "EmptyWithPort", [], port=96))
     types.append(_T(ns, "OnlyPadding", [{"k": "void", "bits": 8}]))
     types.append(_T(ns, "OnlyPaddingExt", [{"k": "void", "bits": 3}, {"k": "void", "bits": 64}], sealed=False, extent_extra=7))
+    # fields, but not a single bit on the wire: every member is an empty composite (alone, in arrays, as union options)
+    empty_t = _T(ns, "EmptyLeaf", [])
+    types.append(empty_t)
+    types.append(_T(ns, "OnlyEmptyMembers", [_F(_ref(empty_t), "a"), _F({"t": "farr", "elem": _ref(empty_t), "n": 2}, "b"), _F(_ref(empty_t), "c")]))
+    types.append(_T(ns, "OnlyEmptyMembersExt", [_F(_ref(empty_t), "a")], sealed=False, extent_extra=0))
     types.append(_T(ns, "OnlyConstants", [_K(_U8, "K", "7"), _K({"t": "float", "bits": 32, "cast": "saturated"}, "F", "0.5")]))
     types.append(_S(ns, "PaddingSvc", [{"k": "void", "bits": 8}], [{"k": "void", "bits": 8}, _K({"t": "bool"}, "X", "false")], port=101))
     types.append(_T(ns, "OnlyBoolArrays", [_F({"t": "farr", "elem": {"t": "bool"}, "n": 9}, "fixed"), _F({"t": "varr", "elem": {"t": "bool"}, "cap": 9, "incl": True}, "variable")]))
